@@ -606,6 +606,7 @@ fn buffer(n: usize) -> Vec<u8> {
     // escape and a reserved initial length (little endian) near the end.
     let full = [0x81u8, 0x7f, 0x00, 0xf0, 0xff, 0xff, 0xff, 0xff, 0x41, 0x80];
     match n {
+        3 => vec![0x81, 0x00, 0xff],
         4 => vec![0x81, 0x00, 0xff, 0x41],
         6 => vec![0x81, 0x7f, 0x00, 0xff, 0xfe, 0x41],
         8 => full[..8].to_vec(),
@@ -764,6 +765,26 @@ fn explore_guarded(ctx: &mut Ctx, n: usize, pool_max: usize, big: bool) {
 pub fn def(tier: Tier) -> CheckDef {
     let (n, pool) = tier.pick((6usize, 2usize), (8usize, 3usize));
     let (ng, poolg) = tier.pick((6usize, 2usize), (8usize, 2usize));
+    def_sized(n, pool, ng, poolg)
+}
+
+/// 3-byte buffer, pool of 2, only the reader kinds with unsafe code (EndianReader
+/// over Rc<[u8]> and over the custom buffer): small enough to run under Miri, which
+/// checks the provenance and bounds of every raw-pointer access in SubRange.
+pub fn def_small() -> CheckDef {
+    let mut d = def_sized(3, 2, 3, 2);
+    d.subs.clear();
+    d.subs.push(Sub::new("miri-reader-histories-N3-pool2", 2, "BFS to the fixed point, EndianRcSlice and EndianReader<GuardedBuf>, 3-byte buffer, pool <= 2", |ctx, i| {
+        if i == 0 {
+            explore_kind::<KRc>(ctx, 3, 2, false)
+        } else {
+            explore_guarded(ctx, 3, 2, false)
+        }
+    }));
+    d
+}
+
+fn def_sized(n: usize, pool: usize, ng: usize, poolg: usize) -> CheckDef {
     let mut subs = vec![];
     subs.push(
         Sub::new(
